@@ -48,12 +48,12 @@ CHECKS = {
         'parts': [GoBin('records', 'harness/c14')],
     },
     'C18': {
-        'level': 'exploration',
-        'engine': 'seqx',
-        'technique': 'exhaustive enumeration of configuration documents (every single-field mutation of valid configurations, numeric edge grids) vs. a reference predicate; accepted sets exercised in worker subprocesses',
+        'level': 'model_checking',
+        'engine': 'seqx+mc',
+        'technique': 'exhaustive enumeration of configuration documents (every single-field mutation of valid configurations, numeric edge grids) vs. a reference predicate, accepted sets exercised in worker subprocesses; exhaustive schedule exploration (state-pruned reachability + deviation-bounded DFS) of reload signals against request streams on the rewritten agent',
         'text': 'Every document of the enumeration is loaded with the real loader and compared with a three-valued reference predicate derived from the statement; every accepted document is used (add + authenticate under each set) in a subprocess so that crashes are observed.',
-        'note': 'Reload (SIGHUP) schedules are explored by the mc part; numeric values beyond the sandbox resources are excluded (stated in the evidence).',
-        'parts': [GoBin('loader', 'harness/c18')],
+        'note': 'Numeric values beyond the sandbox resources are excluded (stated in the evidence); reload scenarios use 1-3 signals and 1-2 clients.',
+        'parts': [GoBin('loader', 'harness/c18'), McPart('reload', 'C18', 'cmd/whawty-auth', ['harness/agentmc'], AGENT_RW)],
     },
     'C16': {
         'level': 'model_checking',
